@@ -24,7 +24,7 @@ static inline void leave(hmx_t * x) {
   int o = atomic_fetch_sub(&x->occ, 1);
   HK_CHECK(o == 1, "cond:mutex-not-held-exclusively", "occupancy %d when leaving the critical section", o);
 }
-static void L(hmx_t * x) { myth_mutex_lock(&x->m); enter(x); }
+static void L(hmx_t * x) { myth_mutex_lock(&x->m); enter(x); hk_progress(); }
 static void U(hmx_t * x) { leave(x); myth_mutex_unlock(&x->m); }
 static void W(hcv_t * c, hmx_t * x) {
   long gen = c->sigs;
@@ -37,6 +37,7 @@ static void W(hcv_t * c, hmx_t * x) {
   HK_CHECK(rc == 0, "cond:wait-rc", "cond_wait returned %d", rc);
   c->nwaiting--;
   atomic_fetch_add(&g_waits, 1);
+  hk_progress();
   HK_CHECK(c->loose || c->sigs > gen, "cond:wakeup-without-signal",
            "wait returned but no signal/broadcast was issued on this condition after the wait began (sigs %ld, at entry %ld)",
            c->sigs, gen);
@@ -108,6 +109,21 @@ static void * bb_consumer(void * a_) {
   }
   return 0;
 }
+/* in signal-outside mode: a bystander that keeps issuing state-less signals without the mutex for as long as the
+   program runs (legal at any instant; every waiter re-checks its predicate) */
+static _Atomic int g_bb_stop;
+static void * bb_pest(void * a_) {
+  (void)a_;
+  long n = 0;
+  while (!atomic_load(&g_bb_stop)) {
+    myth_cond_signal(&bb.not_empty.c);
+    myth_cond_signal(&bb.not_full.c);
+    n += 2;
+    if ((n & 7) == 0) myth_yield();
+  }
+  atomic_fetch_add(&g_signal_spurious, n);
+  return 0;
+}
 static void * bb_thread(void * a_) {
   hkm_targ_t * a = (hkm_targ_t *)a_;
   return a->idx < bb.P ? bb_producer(a_) : bb_consumer(a_);
@@ -127,7 +143,12 @@ static long run_bb(hk_rng_t * r) {
     args[i].idx = i; args[i].rseed = hk_rand(r);
     if (i >= bb.P) { int ci = i - bb.P; long share = total / bb.C + (ci < total % bb.C ? 1 : 0); args[i].user = (void *)(intptr_t)share; }
   }
+  myth_thread_t pest = 0;
+  atomic_store(&g_bb_stop, 0);
+  if (bb.outside && myth_get_num_workers() > 1 && hk_below(r, 2)) pest = myth_create(bb_pest, 0);
   hkm_run_threads(n, bb_thread, args, 0);
+  atomic_store(&g_bb_stop, 1);
+  if (pest) myth_join(pest, 0);
   for (i = 0; i < total; i++) HK_CHECK(atomic_load(&bb.got[i]) == 1, "cond:item-lost", "item %d consumed %d times", i, atomic_load(&bb.got[i]));
   HK_CHECK(bb.count == 0, "cond:item-lost", "buffer holds %d items at the end", bb.count);
   free((void *)bb.got); free(args);
@@ -332,6 +353,7 @@ int main(int argc, char ** argv) {
   int progs = (int)hk_arg("progs", 6);
   int pattern = (int)hk_arg("pattern", 0);
   hkm_setup();
+  hk_watch_start("cond:no-progress", 120);   /* bystander threads keep the logical deadlock rule from firing */
   long handoffs = 0;
   int p, cnt[6] = { 0, 0, 0, 0, 0, 0 };
   for (p = 0; p < progs; p++) {
